@@ -3,6 +3,7 @@ package sim
 import (
 	"fmt"
 
+	"github.com/massnetorg/mass-core/wire"
 	"massnet.org/mass-wallet/masswallet/keystore"
 )
 
@@ -210,6 +211,99 @@ func runC01(w *World, p map[string]int) {
 	if len(w.Violations) == 0 {
 		finalCheck(w, inst, "C01")
 	}
+	if len(w.Violations) == 0 && !inst.Dead && !w.S.CrashRequested && t.Bool(param(p, "latepct", 35)) {
+		lateIssuedAddress(w, inst, "C01")
+	}
 	w.Sample = fmt.Sprintf("wallets=%d ops=%d height=%d blocks=%d forks=%d unconfirmed=%d knobs=%+v",
 		nW, nOps, w.Node.Tip().Height, w.Stats["op.mine"], w.Stats["op.fork"], w.Stats["op.unconfirmed"], w.Knobs)
+}
+
+// lateIssuedAddress: the chain pays the wallet's NEXT address before the wallet
+// has issued it (the same mnemonic is in use on another installation), in a
+// transaction that also pays an address the wallet knows; the wallet then
+// issues that address, and the other installation spends the coin. The wallet
+// never recorded the coin (nothing rescans for one new address), so nothing is
+// asserted about it while it is unspent; what must hold is that the follower
+// goes on to the tip and that, the coin being spent, the ledger equals the
+// chain again.
+//
+//go:norace
+func lateIssuedAddress(w *World, inst *Instance, class string) {
+	t := w.Plan
+	var cands []*WalletState
+	for _, id := range inst.SortedWalletIDs() {
+		ws := inst.Wallets[id]
+		if ws.HD != nil && !ws.Removing && !ws.Uncertain && len(ws.Issued) > 0 {
+			cands = append(cands, ws)
+		}
+	}
+	if len(cands) == 0 {
+		return
+	}
+	ws := cands[t.Int(len(cands))]
+	next := ws.Issued[len(ws.Issued)-1].Index + 1
+	var hk, hf [32]byte
+	copy(hk[:], ws.HD.Addr(ws.Issued[t.Int(len(ws.Issued))].Index).ScriptHash)
+	copy(hf[:], ws.HD.Addr(next).ScriptHash)
+	tip := w.Node.Tip()
+	var src *genCoin
+	for _, c := range sortedCoins(w.Gen.utxoAt(tip)) {
+		if c.owner < 2 && c.cls == ClassStd && c.value > 5000000 && tip.Height+1 >= c.height && tip.Height+1-c.height >= c.lock() {
+			src = c
+			break
+		}
+	}
+	if src == nil {
+		return
+	}
+	a1, a2 := int64(1000000+t.Int(1000)), int64(2000000+t.Int(1000))
+	tx := wire.NewMsgTx()
+	tx.AddTxIn(wire.NewTxIn(&src.op, dummyWitness()))
+	known, late := uint32(0), uint32(1)
+	if t.Bool(50) {
+		known, late = 1, 0
+		tx.AddTxOut(wire.NewTxOut(a2, stdScript(hf)))
+		tx.AddTxOut(wire.NewTxOut(a1, stdScript(hk)))
+	} else {
+		tx.AddTxOut(wire.NewTxOut(a1, stdScript(hk)))
+		tx.AddTxOut(wire.NewTxOut(a2, stdScript(hf)))
+	}
+	_ = known
+	if rest := src.value - a1 - a2 - 100000; rest > 0 {
+		hh, _ := w.Gen.pickPayee(t, 0)
+		tx.AddTxOut(wire.NewTxOut(rest, stdScript(hh)))
+	}
+	b := w.Gen.NewBlock(t, tip, []*wire.MsgTx{tx})
+	w.Node.Attach(b)
+	w.SyncTips()
+	w.Announce(b)
+	w.logBlock("pay-ahead", b)
+	if _, ok := w.S.Quiesce(20000); !ok || !w.AllDelivered() {
+		w.Violate(class+".liveness", "not quiescent after a payment to a not yet issued address: %v | wallet errors: %q", w.S.ParkedSummary(), w.RecentErrors(4))
+		return
+	}
+	before := len(ws.Issued)
+	if err := w.IssueAddress(inst, ws, false, true, class); err != nil || len(w.Violations) > 0 || len(ws.Issued) != before+1 || ws.Issued[before].Index != next {
+		return
+	}
+	// the other installation spends the coin (in some runs only after another block)
+	if t.Bool(40) {
+		w.MineOnTip(t, 50)
+	}
+	tip = w.Node.Tip()
+	op := wire.OutPoint{Hash: tx.TxHash(), Index: late}
+	if _, unspent := w.Gen.utxoAt(tip)[op]; !unspent {
+		return // the generator spent it already in the block just mined: same thing
+	}
+	tx2 := wire.NewMsgTx()
+	tx2.AddTxIn(wire.NewTxIn(&op, dummyWitness()))
+	hh, _ := w.Gen.pickPayee(t, 0)
+	tx2.AddTxOut(wire.NewTxOut(a2-100000, stdScript(hh)))
+	b2 := w.Gen.NewBlock(t, tip, []*wire.MsgTx{tx2})
+	w.Node.Attach(b2)
+	w.SyncTips()
+	w.Announce(b2)
+	w.logBlock("spend-of-late-address-coin", b2)
+	w.Stat("probe.coin_of_late_issued_address_spent")
+	finalCheck(w, inst, class)
 }
